@@ -362,7 +362,45 @@ def ite(c, a, b):
                     elem=lambda i, a=a, b=b, c=c: ite(c, a.elem(i), b.elem(i)), kind=a.kind)
     if isinstance(a, VObj) and isinstance(b, VObj) and a.ref == b.ref:
         return a
+    # a concrete tuple stored where only "some object" is known (e.g. appended to a list of unknown objects): box it - an
+    # object that is a FUNCTION of its fields (the constructor name carries the field sorts; contracts may take it apart)
+    if isinstance(a, VOpaque) and isinstance(b, VSeq) and b.concrete:
+        bb = box_seq(b)
+        if bb is not None:
+            return VOpaque(z3.If(c, a.t, bb.t))
+    if isinstance(b, VOpaque) and isinstance(a, VSeq) and a.concrete:
+        ab = box_seq(a)
+        if ab is not None:
+            return VOpaque(z3.If(c, ab.t, b.t))
     raise Unsupported('cannot merge %r and %r' % (a, b))
+
+
+def box_seq(v):
+    """VSeq of scalar/opaque items -> VOpaque(opaque_box_<sorts>(items...)); None if an item has no single term"""
+    terms, names = [], []
+    for x in v.items:
+        if isinstance(x, VInt):
+            terms.append(x.t); names.append('I')
+        elif isinstance(x, VReal):
+            terms.append(x.t); names.append('R')
+        elif isinstance(x, VBool):
+            terms.append(x.t); names.append('B')
+        elif isinstance(x, VStr):
+            terms.append(x.t); names.append('S')
+        elif isinstance(x, VOpaque):
+            terms.append(x.t); names.append('O')
+        else:
+            return None
+    f = z3.Function('opaque_box_%s_%s' % (v.kind, ''.join(names)), *([t.sort() for t in terms] + [ObjSort]))
+    return VOpaque(f(*terms))
+
+
+def unbox_seq(t):
+    """the field terms of a boxed tuple term (after simplification), or None"""
+    t = z3.simplify(t)
+    if z3.is_app(t) and t.decl().name().startswith('opaque_box_'):
+        return [t.arg(i) for i in range(t.num_args())]
+    return None
 
 
 def eq(a, b):
